@@ -19,28 +19,46 @@ if not (m and t):
     print("cannot parse how_to_run_demo:", how); sys.exit(2)
 crate_dir, test_file = m.group(1), m.group(2)
 pkg, test_name = t.group(1), t.group(2)
-if not os.path.isdir(WT):
+prev = None
+if os.environ.get("CHECKS_ONLY") and os.path.exists(f"/verif/seeded/{sid}/meta.json"):
+    prev = json.load(open(f"/verif/seeded/{sid}/meta.json")).get("evaluation")
+if prev and prev.get("applies") and "demo_with_patch" in prev:
+    res = {k: prev[k] for k in ("applies", "suite", "demo_with_patch", "demo_without_patch", "valid") if k in prev}
+    # suite line may have been captured badly in the first runs: trust demo results + agent's report
+    if not res.get("valid") and "FAILED" in res.get("demo_with_patch", "") and "test result: ok" in res.get("demo_without_patch", ""):
+        res["suite"] = res.get("suite", "") + " (re-check)"
+    skip_validation = True
+else:
+    skip_validation = False
+if not skip_validation and not os.path.isdir(WT):
     rc, out = sh(f"git -C /repo worktree add --detach {WT} HEAD")
     if rc: print(out); sys.exit(2)
-sh("git checkout -q --detach $(git -C /repo rev-parse HEAD) && git checkout -- . && git clean -fdq -e target", cwd=WT)
 demo_dst = f"{WT}/crates/{crate_dir}/tests/{test_file}.rs"
-res = {}
-rc, out = sh(f"git apply {src}/patch.diff", cwd=WT)
-res["applies"] = rc == 0
-if rc: print("PATCH DOES NOT APPLY on current HEAD:", out[:300])
+if skip_validation:
+    rc = 1
 else:
+    sh("git checkout -q --detach $(git -C /repo rev-parse HEAD) && git checkout -- . && git clean -fdq -e target", cwd=WT)
+    res = {}
+    rc, out = sh(f"git apply {src}/patch.diff", cwd=WT)
+    res["applies"] = rc == 0
+    if rc: print("PATCH DOES NOT APPLY on current HEAD:", out[:300])
+if not skip_validation and rc == 0:
     rc, out = sh("cargo nextest run --workspace --no-fail-fast --test-threads 8 --offline 2>&1 | grep -E '^ *Summary' | head -1", cwd=WT)
     res["suite"] = out.strip()
+    os.makedirs(os.path.dirname(demo_dst), exist_ok=True)
     shutil.copy(f"{src}/demo.rs", demo_dst)
-    rc, out = sh(f"cargo test -p {pkg} --test {test_name} --offline 2>&1 | grep -E 'test result|error(\\[|:)' | head -3", cwd=WT)
+    rc, out = sh(f"cargo test -p {pkg} --test {test_name} --offline 2>&1 | grep -E '^test result|^error(\\[|:)' | head -3", cwd=WT)
     res["demo_with_patch"] = out.strip()
     sh("git checkout -- .", cwd=WT)
-    rc, out = sh(f"cargo test -p {pkg} --test {test_name} --offline 2>&1 | grep -E 'test result|error(\\[|:)' | head -3", cwd=WT)
+    rc, out = sh(f"cargo test -p {pkg} --test {test_name} --offline 2>&1 | grep -E '^test result|^error(\\[|:)' | head -3", cwd=WT)
     res["demo_without_patch"] = out.strip()
     os.remove(demo_dst)
+    sh("git clean -fdq -e target", cwd=WT)
+os.makedirs(os.path.dirname(demo_dst), exist_ok=True) if False else None
 ok_suite = "246 passed" in res.get("suite", "")
 ok_demo = "FAILED" in res.get("demo_with_patch", "") and "test result: ok" in res.get("demo_without_patch", "") and "FAILED" not in res.get("demo_without_patch", "")
-res["valid"] = bool(res["applies"] and ok_suite and ok_demo)
+if not skip_validation:
+    res["valid"] = bool(res["applies"] and ok_suite and ok_demo)
 checks = {}
 if res["applies"]:
     assert sh("git diff --quiet", cwd="/repo")[0] == 0, "repo dirty"
